@@ -3,7 +3,7 @@
 From Coq Require Extraction.
 From Coq Require Import ExtrOcamlBasic.
 From Spg.Base Require Import Prelude Utf8 Bytes.
-From Spg.Model Require Import Tables Rand GenM CharSets CharGen.
+From Spg.Model Require Import Tables Rand GenM CharSets CharGen Token.
 
 Definition run_draw (n : N) (src : source) : outcome N * N :=
   run_src (Pick n (fun i => Ret (Done i))) src.
@@ -11,7 +11,29 @@ Definition run_draw (n : N) (src : source) : outcome N * N :=
 Definition run_chargen (b : budget) (r : char_recipe) (src : source) : outcome (list bytes) * N :=
   run_src (char_generate b r) src.
 
+(** MakeIndices followed by Tokenize on String(): kind, index, and whether the tokens came back *)
+Fixpoint tokens_eqb (a b : list token) : bool :=
+  match a, b with
+  | [], [] => true
+  | x :: a', y :: b' => beqb (value x) (value y) && N.eqb (ttype x) (ttype y) && tokens_eqb a' b'
+  | _, _ => false
+  end.
+Inductive rt_result : Type := RtNone | RtOk | RtErr (e : err) | RtLossy (ts : list token) | RtPanic.
+Definition roundtrip_report (ts : list token) : N * outcome (list N) * rt_result :=
+  let k := kind ts in
+  let mi := make_indices ts in
+  let rt := match mi with
+            | Done [] => RtNone
+            | Done idx => match tokenize (pw_string ts) idx with
+                          | Done ts' => if tokens_eqb ts ts' then RtOk else RtLossy ts'
+                          | Err e => RtErr e
+                          | Panic _ => RtPanic
+                          end
+            | _ => RtNone
+            end in
+  (k, mi, rt).
+
 Extraction "model.ml"
   run_draw run_src explode
   run_chargen recipe_report char_entropy alphabet_string recipe_count sp_num sp_den char_generate_diag char_entropy_diag
-  mkCR mkBudget Z.of_N.
+  mkCR mkBudget Z.of_N roundtrip_report tokenize Tok.
